@@ -245,6 +245,7 @@ def h_coherent(s0: int, s1: int, s2: int, p0: int, p1: int, p2: int, view_first:
     pre: 0 <= s0 < len(STEPS) and 0 <= s1 < len(STEPS) and 0 <= s2 < len(STEPS) and 0 <= p0 <= 2 and 0 <= p1 <= 2 and 0 <= p2 <= 2
     pre: H.fix(s0=s0)
     pre: H.cfg('H', 2) >= 3 or (s2 == 0 and p2 == 0)
+    pre: H.cfg('H', 2) < 3 or (p1 == 1 and p2 == 2)
     post: _
     """
     H.reset()
@@ -286,5 +287,5 @@ def obligations(tier):
                         smoke=[[s0, 0, 0, 1, 1, 0, False], [s0, 12, 0, 0, 2, 0, True]]))
         if not q:
             obs.append(dict(name='coherent[H=3,first=%s]' % STEPS[s0], fn='h_coherent', config={'s0': s0, 'H': 3}, budget=1200,
-                            bounds='depth 3', smoke=[[s0, 1, 12, 1, 1, 0, True]]))
+                            bounds='depth 3: first step fixed per job, every second and third step, every position of the first step (later positions fixed)', smoke=[[s0, 1, 12, 1, 1, 2, True]]))
     return obs
